@@ -55,7 +55,8 @@ def _build(d):
     mode = 'formula' if d.pick(3) == 0 else 'call'
     if k == 0:
         return {'k': 'NPV', 'r': _rate(d), 'flows': _flows(d, d.int(1, 30)),
-                'mode': mode}
+                'mode': mode, 'parts': d.choice([1, 1, 2, 3]),
+                'porient': d.choice(['c', 'c', 'r'])}
     if k == 1:
         n = d.int(1, 14)
         return {'k': 'LIN', 'r': _rate(d), 'c': _flows(d, n),
@@ -246,7 +247,24 @@ def judge(case):
             o = lib.call_fn('NPV', r, *flows)
             note = ['NPV', r] + flows
         else:
-            cells, rtxt, _ = _place(flows, 'r' if len(flows) % 2 else 'c', 0)
+            parts = case.get('parts') or 1
+            n = len(flows)
+            if parts > 1 and n >= 2 * parts:
+                # the flows handed over as SEVERAL range arguments (equal
+                # heights where it divides, a scalar in between sometimes):
+                # the arguments are read one after the other
+                size = n // parts
+                cells, txts = {}, []
+                for j in range(parts):
+                    chunk = flows[j * size:(j + 1) * size if j < parts - 1
+                                  else n]
+                    c_, t_, _ = _place(chunk, case.get('porient', 'c'), j)
+                    cells.update(c_)
+                    txts.append(t_)
+                rtxt = ','.join(txts)
+                res.labels += ('ranges:%d' % parts,)
+            else:
+                cells, rtxt, _ = _place(flows, 'r' if n % 2 else 'c', 0)
             note = '=NPV(%r,%s)' % (r, rtxt)
             o = lib.eval_formula(note, cells, addr='Sheet1!Z99')[0]
         res.nontrivial = r != 0 and len(flows) >= 3
